@@ -220,3 +220,54 @@ package hessian
 //@ func (*Encoder).writeRef
 //@   assigns @out, @W, @nwrites
 //@   ensures [C15:W] (@W && !old(@W)) ==> err != nil
+
+// ---------------------------------------------------------------- string / binary decoders (C03, C09, C14)
+// @declared: the length the header of the chunk being read declares.
+
+//@ func getStringLen
+//@   assigns @pos, @E, @declared
+//@   let short  = tag <= 0x1f
+//@   let middle = 0x30 <= tag && tag <= 0x33
+//@   let chunk  = tag == 'R' || tag == 'S'
+//@   let need   = ite(short, 0, ite(middle, 1, 2))
+//@   let fits   = (short || middle || chunk) && old(@pos) + need <= len(@in)
+//@   ensures [C09,C03:strlen-short]  short ==> err == nil && result0 == int(tag) && @pos == old(@pos)
+//@   ensures [C09,C03:strlen-middle] middle && fits ==> err == nil && result0 == (int(tag) - 0x30) * 256 + int(@in[old(@pos)]) && @pos == old(@pos) + 1
+//@   ensures [C09,C03:strlen-chunk]  chunk && fits ==> err == nil && result0 == int(@in[old(@pos)]) * 256 + int(@in[old(@pos) + 1]) && @pos == old(@pos) + 2
+//@   ensures [C09,C14:strlen-range]  err == nil ==> 0 <= result0 && result0 <= 65535 && @declared == result0
+//@   ensures [C14,C03:strlen-reject] !fits ==> err != nil
+
+//@ func getBinaryLen
+//@   assigns @pos, @E, @declared
+//@   let short  = 0x20 <= tag && tag <= 0x2f
+//@   let fits   = short || old(@pos) + 2 <= len(@in)
+//@   ensures [C09,C03:binlen-short]  short ==> err == nil && result0 == int(tag) - 0x20 && @pos == old(@pos)
+//@   ensures [C09,C03:binlen-chunk]  !short && fits ==> err == nil && result0 == int(@in[old(@pos)]) * 256 + int(@in[old(@pos) + 1]) && @pos == old(@pos) + 2
+//@   ensures [C09,C14:binlen-range]  err == nil ==> 0 <= result0 && result0 <= 65535 && @declared == result0
+//@   ensures [C14,C03:binlen-reject] !fits ==> err != nil
+
+//@ func stringTag
+//@   pure
+//@   ensures [C03,C01:stringTag] result == (tag <= 0x1f || (0x30 <= tag && tag <= 0x33) || tag == 'R' || tag == 'S')
+
+//@ func binaryTag
+//@   pure
+//@   ensures [C03,C01:binaryTag] result == ((0x20 <= tag && tag <= 0x2f) || tag == 0x41 || tag == 'B')
+
+//@ func readRunes
+//@   assigns @pos, buf
+//@   loop 1 invariant [C14:readrunes-index] 0 <= i && i <= len(buf)
+//@   loop 1 decreases len(buf) - i
+//@   ensures [C09,C03:readrunes-count] 0 <= result0 && result0 <= len(buf) && (err == nil ==> result0 == len(buf))
+
+//@ func decodeStringValue
+//@   requires flag == -1 || (0 <= flag && flag <= 255)
+//@   assigns @pos, @E, @declared
+//@   loop 1 invariant [C03,C09:str-chunk-own-length] len(buf) == @declared && 0 <= length
+//@   ensures [C14:str-total] true
+
+//@ func decodeBinaryValue
+//@   requires flag == -1 || (0 <= flag && flag <= 255)
+//@   assigns @pos, @E, @declared
+//@   loop 1 invariant [C03,C09:bin-chunk-own-length] len(buf) == @declared && 0 <= length
+//@   ensures [C14:bin-total] true
